@@ -325,7 +325,9 @@ def wl_golden(tier, seed):
     # every history has its own id space already (golden tables); one history per TLC start
     return [("golden", checks, dict(per_tlc=1, tlc_jobs=8, max_slots=400)),
             ("rewrite", rewrites, dict(per_tlc=1, tlc_jobs=8, max_slots=400)),
-            ("l2", l2_batch(seed + 9, 4 if tier == "quick" else 30, nops=60 if tier == "quick" else 200, base=700), dict(per_tlc=2, tlc_jobs=6))]
+            ("l2", l2_batch(seed + 9, 4 if tier == "quick" else 30, nops=60 if tier == "quick" else 200, base=700), dict(per_tlc=2, tlc_jobs=6)),
+            # the released encoding of integer keys (C12.key_bytes)
+            ("conv", [gen.gen_conv(seed * 1000 + 77, idbase=900 * IDSTEP, extra=300 if tier == "quick" else 3000, name="conv")], dict(per_tlc=1, tlc_jobs=1))]
 
 
 def wl_layout(tier, seed):
